@@ -118,7 +118,7 @@ structure ObjSt where
 abbrev Grids := Nat → GridObj
 abbrev Objs := Addr → ObjSt
 
-def Objs.set (O : Objs) (ad : Addr) (o : ObjSt) : Objs := fun a => if a = ad then o else O a
+@[noinline] def Objs.set (O : Objs) (ad : Addr) (o : ObjSt) : Objs := fun a => if a = ad then o else O a
 
 structure PyState where
   grids : Grids
